@@ -237,3 +237,26 @@ Lemma compile_correct_nonvacuous :
   spec_is_err w_ok (ints [6; 5]) = true /\
   wres_z (run_raw w_ok (ints [6; 5])) = Some (true, inr TDivZero).
 Proof. timeout 20 vm_compute. repeat split. Qed.
+
+(* ---- loops (model only; outside the proved fragment): for i := range(0, n, 1) with
+   if / else if / else { continue }, a break, and an inner condition loop ---- *)
+Definition w_loop :=
+  mkf [TI I64] [TI I64; TI I64; TI I64; TI I64; TI I64] (TI I64)
+    (BCons (SDecl 1 (TI I64) (ELit I64 0))
+    (BCons (SRange 2 3 I64 (Some (ELit I64 0)) (EVar 0) (Some (4%nat, ELit I64 1))
+       (BCons (SIf (ECmp CEq (EArith AMod (EVar 2) (ELit I64 3)) (ELit I64 0))
+                   (BCons (SCompound 1 AAdd (ELit I64 100)) BNil)
+                   (ElElif (ECmp CEq (EArith AMod (EVar 2) (ELit I64 3)) (ELit I64 1))
+                           (BCons (SCompound 1 AAdd (ELit I64 10)) BNil)
+                           (ElElse (BCons SContinue BNil))))
+       (BCons (SIf (ECmp CGt (EVar 2) (ELit I64 7)) (BCons SBreak BNil) ElNone)
+       (BCons (SDecl 5 (TI I64) (ELit I64 0))
+       (BCons (SFor (ECmp CLt (EVar 5) (ELit I64 2))
+                    (BCons (SCompound 5 AAdd (ELit I64 1)) (BCons (SCompound 1 AAdd (ELit I64 1)) BNil)))
+        BNil)))))
+    (ret1 (EArith AMul (EVar 1) (ELit I64 3))))).
+Lemma loop_model_example :
+  wf w_loop = true /\ loop_free_block (f_body w_loop) = false /\
+  spec_z w_loop (ints [10]) = Some 1326 /\
+  wres_z (run_raw w_loop (ints [10])) = Some (true, inl 1326).
+Proof. timeout 30 vm_compute. repeat split. Qed.
